@@ -8,6 +8,7 @@ import (
 	"fmt"
 	"hash/fnv"
 	"os"
+	"runtime"
 	"runtime/debug"
 	"sort"
 	"strconv"
@@ -277,6 +278,10 @@ func (e *infraError) Error() string { return "INFRA: " + e.msg }
 
 func infraExit(msg string) {
 	fmt.Fprintf(os.Stderr, "INFRA: %s\n", msg)
+	if os.Getenv("VERIF_INFRA_DUMP") != "" {
+		buf := make([]byte, 1<<20)
+		fmt.Fprintf(os.Stderr, "%s\n", buf[:runtime.Stack(buf, true)])
+	}
 	flushStats()
 	os.Exit(3)
 }
